@@ -344,6 +344,15 @@ class Assembler:
             if l.lstrip().startswith("#[derive("):
                 lines.pairs.insert(k + 1, ("#[verifier::external_derive]", o))
                 break
+        if "+pub" in extra_attr:
+            # visibility widened for the verifier's module rules only (rule D4c; no effect on behaviour)
+            extra_attr = extra_attr.replace("+pub", "").strip()
+            for k, (l, o) in enumerate(lines.pairs):
+                mm = re.match(r"(\s*)(enum|struct|type|const|fn)\b", l)
+                if mm:
+                    lines.pairs[k] = (l[: mm.end(1)] + "pub " + l[mm.end(1):], o)
+                    log.append({"rule": "D4c", "before": l.strip()[:40], "after": "pub " + l.strip()[:40]})
+                    break
         if extra_attr.strip():
             # verifier-only attribute requested by the template (no effect on the running code)
             lines.pairs.insert(0, (extra_attr.strip(), ("tpl", os.path.relpath(tpl_path, self.verif), blk.tpl_line, "attr")))
